@@ -246,13 +246,17 @@ fn stale_temp_case(sink: &mut Sink, scratch: &str, bin: &str, kind: Kind) {
     for pid in &pids {
         std::fs::write(parent.join(format!(".{}.tmp.{pid}", file_name(kind))), &junk).unwrap();
     }
+    // and under the plain names a save could use instead of a per-process one
+    for name in [format!(".{}.tmp", file_name(kind)), format!("{}.tmp", file_name(kind)), format!(".{}.tmp.0", file_name(kind))] {
+        std::fs::write(parent.join(name), &junk).unwrap();
+    }
     let child = std::process::Command::new(bin).args(save_cmd(kind)).current_dir(&dir).env("NO_COLOR", "1").env("SLOC_GUARD_VERIF_NOW", "1700000000").stdout(std::process::Stdio::null()).stderr(std::process::Stdio::null()).spawn().expect("run sloc-guard");
     let covered = pids.contains(&child.id());
     let _ = child.wait_with_output();
     let after = std::fs::read(target_of(kind, &dir)).unwrap_or_default();
-    let pred = if !covered {
-        None
-    } else if !same_content(&after, &new_bytes) {
+    // (junk under a name the save does not use is harmless; under a name it does use, the save
+    // must still publish exactly the new content)
+    let pred = if !same_content(&after, &new_bytes) {
         Some(format!("a stale temporary file with the save's own name was there: the {kind:?} file now holds {} bytes{} instead of the {} bytes of the new content", after.len(), if serde_json::from_slice::<serde_json::Value>(&after).is_err() { " that do not parse" } else { "" }, new_bytes.len()))
     } else {
         None
